@@ -5,6 +5,10 @@ Driver command for stage S5 (space-group identification):
 answers
   `ok ; number n ; hallnum h ; ulinear <9 ints> ; ushift <3 rationals> ; fragile 0|1`   or
   `err <MoyoError variant> ; fragile 0|1`   or   `PANIC <site> ; fragile 0|1`.
+With a trailing request segment `; row h` (exhaustive table run: the operations are the tabulated primitive
+operations of Hall number `h`) the answer ends with `; row 1|0`: 1 iff the model's answer is
+`hallTable[h-1].number` with the convention's Hall number (`h` itself for `hall h`) — the row checker of the
+table theorem `identify_tables`, evaluated by the compiled model on every run.
 
 Fragility (DESIGN §2.3): the only comparisons of computed real quantities against a threshold are the
 `> epsilon` tests of `solve_mod1`.  The model is evaluated at `epsilon` and at the two thresholds
@@ -56,7 +60,19 @@ def cmdS5 (ts : List String) : String :=
     let r := identifyFrom ops.toList setting eps pgr
     let fragile :=
       !(sameOut r (identifyFrom ops.toList setting (band eps 1) pgr) && sameOut r (identifyFrom ops.toList setting (band eps (-1)) pgr))
-    s!"{outString r} ; fragile {if fragile then 1 else 0}"
+    -- table rows (`; row h`): the answer must be the tabulated number with the Hall number of the convention
+    let row := match (seg? segs "row").bind (·.head?) |>.bind String.toNat? with
+      | none => ""
+      | some h =>
+        let ok := match hallEntry? h, r with
+          | some e, .ok sg =>
+            sg.number == e.number && sg.hall == (match setting with
+              | .spglib => Moyo.Generated.spglibHallNumbers.getD (e.number - 1) 0
+              | .standard => Moyo.Generated.standardHallNumbers.getD (e.number - 1) 0
+              | .hall k => k.toNat)
+          | _, _ => false
+        s!" ; row {if ok then 1 else 0}"
+    s!"{outString r} ; fragile {if fragile then 1 else 0}{row}"
 
 /-- `s5pg <tag> ; nrot k ; rots <k × 9 ints>`: `PointGroup::new` alone. -/
 def cmdS5pg (ts : List String) : String :=
